@@ -229,6 +229,7 @@ size_t Decode(const char *base64_ptr, size_t base64_len, void *raw_data_ptr, siz
         return 0;
 
     size_t w_pos = 0;
+    uint8_t tmp = 0;
     uint8_t *out_bytes = static_cast<uint8_t*>(raw_data_ptr);
 
     for (size_t r_pos = 0; r_pos < base64_len; r_pos++) {
@@ -240,20 +241,21 @@ size_t Decode(const char *base64_ptr, size_t base64_len, void *raw_data_ptr, siz
         if (v == 255)
             return 0;
 
+        //! 未凑满的字节先存在tmp中，凑满了才写入输出缓冲，避免越过 raw_data_size 写入
         switch (r_pos & 0x3) {
             case 0:
-                out_bytes[w_pos] = v << 2;
+                tmp = v << 2;
                 break;
             case 1:
-                out_bytes[w_pos++] |= v >> 4;
-                out_bytes[w_pos] = v << 4;
+                out_bytes[w_pos++] = tmp | (v >> 4);
+                tmp = v << 4;
                 break;
             case 2:
-                out_bytes[w_pos++] |= v >> 2;
-                out_bytes[w_pos] = v << 6;
+                out_bytes[w_pos++] = tmp | (v >> 2);
+                tmp = v << 6;
                 break;
             case 3:
-                out_bytes[w_pos++] |= v;
+                out_bytes[w_pos++] = tmp | v;
                 break;
         }
     }
